@@ -84,9 +84,10 @@ def lexF64ok (s : List Nat) : Bool :=
           !r'.isEmpty && r'.all isDigit
         else false
 
-/-- the value of `%J` is not modelled: results that depend on it are answered `unmodelled` -/
+/-- the value PARSED for `%J` is not modelled: parse results that depend on it are answered `unmodelled`; the text
+    PRINTED for `%J` is chosen by `formatOp` among the numerals of the implementation's text that the spec accepts -/
 def oracles : Oracles :=
-  { weekdayTai := hwWeekday, lexDoy := fun s => if lexF64ok s then some (1, Dur.ZERO) else none }
+  { lexDoy := fun s => if lexF64ok s then some (1, Dur.ZERO) else none, doyText := fun _ => [] }
 
 /-! ### defect classes -/
 
@@ -150,6 +151,9 @@ def sval (d : Dur) : Int := valP d.c d.ns
 
 def specItems (fmt : List Nat) : Option (List Spec.Efmt.SItem) := Spec.Efmt.readFormat fmt
 
+/-- the format as the spec reads it when it may also carry `%w`, `%y`, `%J` (the tokens the statement does not name) -/
+def specItemsX (fmt : List Nat) : Option (List Spec.Efmt.SItem) := Spec.Efmt.readFormatX fmt
+
 /-- verdict on a formatter output: `items` the format as the spec reads it, `e` the epoch whose
     fields are printed (already shifted by the offset), `off` the offset in ns -/
 def judgeText (items : List Spec.Efmt.SItem) (e : Ep) (off : Int) (impl : Impl) : String :=
@@ -165,6 +169,23 @@ def judgeText (items : List Spec.Efmt.SItem) (e : Ep) (off : Int) (impl : Impl) 
          | some got =>
            if got == want then "ok"
            else if got.length ≠ want.length then "FAIL:text_length" else "FAIL:text"
+         | none => "FAIL:decode")
+      | .ok _ => "FAIL:decode"
+      | .other w => "FAIL:" ++ w
+
+/-- the same verdict for a format that carries `%w`, `%y` or `%J`: the text must have the demanded SHAPE
+    (`Spec.Efmt.pieces`: `%w` exact, `%J` a decimal within 2e-12 of the exact day of year, `%y` any integer) -/
+def judgeTextX (items : List Spec.Efmt.SItem) (e : Ep) (off : Int) (impl : Impl) : String :=
+  match Spec.Efmt.fieldsOf e.ts.name (sval e.dur) with
+  | none => "FAIL:spec_date"
+  | some F =>
+    match Spec.Efmt.pieces items F off with
+    | none => "na"
+    | some ps =>
+      match impl with
+      | .ok [hex] =>
+        (match codesOfHex hex with
+         | some got => if Spec.Efmt.matchGo ps got then "ok" else "FAIL:text"
          | none => "FAIL:decode")
       | .ok _ => "FAIL:decode"
       | .other w => "FAIL:" ++ w
@@ -195,18 +216,63 @@ def resTag {α} : Res α → String
 def hasDocString (n : String) : Bool :=
   (Gen.EFMT_DOC.any (fun p => p.1 == n)) || (Gen.EFMT_TESTED.any (fun p => p.1 == n))
 
+/-- is `pat` a prefix of `t`? -/
+def isPrefix : List Nat → List Nat → Bool
+  | [], _ => true
+  | _ :: _, [] => false
+  | a :: as, b :: bs => a == b && isPrefix as bs
+
+/-- the numerals inside the text `t` that the spec accepts for `%J` (a decimal within 2e-12 of `num/den`); only
+    places where the integer part of the exact value (or its neighbours, for a numeral that rounds up) starts -/
+def doyCandidates (num den : Int) (t : List Nat) : List (List Nat) :=
+  let q := (num / den).toNat
+  let ips : List (List Nat) := [q, q + 1, q - 1].map (fun n => (toString n).toList.map Char.toNat)
+  ((List.range t.length).flatMap (fun i =>
+    let r := t.drop i
+    if ips.any (fun ip => isPrefix ip r) then
+      (List.range r.length).filterMap (fun k =>
+        let c := r.take (k + 1)
+        match Spec.Efmt.decimalOf c with
+        | some (n, p) => if Spec.Efmt.closeTo n p num den then some c else none
+        | none => none)
+    else [])).eraseDups
+
+/-- the model's text for a format that prints `%J`: the f64 numeral is an ORACLE of the model (`Oracles.doyText`), so the
+    tie is "SOME numeral the spec accepts makes the model's text equal the implementation's": every other token and
+    every separator is tied exactly; when no numeral does, the model's text with an empty `%J` is shown (it differs) -/
+def modelTextJ (f : Format) (e shown : Ep) (off : Option Dur) (impl : Impl) : Res (List Nat) :=
+  let dflt := formatterOutput oracles f e off
+  match impl, Spec.Efmt.fieldsOf shown.ts.name (Spec.valP shown.dur.c shown.dur.ns) with
+  | .ok [hex], some F =>
+    (match codesOfHex hex, Spec.Efmt.tokenPiece 74 F 0 with
+     | some got, some (.real num den) =>
+       (match (doyCandidates num den got).find? (fun c =>
+          match formatterOutput { oracles with doyText := fun _ => c } f e off with
+          | .ok t => t == got
+          | _ => false) with
+        | some c => formatterOutput { oracles with doyText := fun _ => c } f e off
+        | none => dflt)
+     | _, _ => dflt)
+  | _, _ => dflt
+
 /-- shared body of `format`, `format_const`, `format_ts` -/
 def formatOp (op : String) (f : Format) (items : Option (List Spec.Efmt.SItem)) (e : Ep) (off : Option Dur)
-    (impl : Impl) : Ans :=
+    (impl : Impl) (itemsX : Option (List Spec.Efmt.SItem) := none) : Ans :=
   let shown : Ep := match off with | some o => e.add o | none => e
-  let m := formatterOutput oracles f e off
+  let m := if hasTok f .DayOfYear then modelTextJ f e shown off impl else formatterOutput oracles f e off
+  let offNs : Int := match off with | some o => sval o | none => 0
   let sp := match items with
-    | some its => if op == "format_const" || Spec.Efmt.plainFormat its then judgeText its shown (match off with | some o => sval o | none => 0) impl
+    | some its => if op == "format_const" || Spec.Efmt.plainFormat its then judgeText its shown offNs impl
                   else noPanic impl
-    | none => noPanic impl
-  { model := if hasTok f .DayOfYear then "unmodelled" else showResCodes m, spec := sp,
+    | none =>
+      -- a format with `%w`, `%y` or `%J`: judged by shape
+      match itemsX with
+      | some its => if Spec.Efmt.plainFormat its then judgeTextX its shown offNs impl else noPanic impl
+      | none => noPanic impl
+  { model := showResCodes m, spec := sp,
     branch := op ++ ":" ++ shapeTag f ++ ":" ++ scaleTag e ++ (if off.isSome then ":tz" else "") ++
-              ((hasTok f .Weekday || hasTok f .WeekdayShort) && decide (hwWeekday shown ≠ weekdayOfDate shown) |> fun b => if b then ":wd_edge" else "") }
+              (if items.isNone && itemsX.isSome then ":unnamed" else "") ++
+              ((hasTok f .Weekday || hasTok f .WeekdayShort || hasTok f .WeekdayDecimal) && decide (hwWeekday shown ≠ weekdayOfDate shown) |> fun b => if b then ":wd_edge" else "") }
 
 def backOp (op : String) (f : Format) (items : Option (List Spec.Efmt.SItem)) (e : Ep) (off : Option Dur)
     (impl : Impl) : Ans :=
@@ -219,7 +285,11 @@ def backOp (op : String) (f : Format) (items : Option (List Spec.Efmt.SItem)) (e
   let offInDomain : Bool := match off with
     | some o => decide (sval o % 60000000000 = 0 ∧ -86340000000000 ≤ sval o ∧ sval o ≤ 86340000000000)
     | none => true
-  let full : Bool := offInDomain && (match items with | some its => Spec.Efmt.backDomain its | none => false)
+  -- the text can carry a non-zero offset only through `%z`: without it the printed local time does not determine
+  -- the epoch and the clause cannot speak (a constant such as ISO8601 formatted with `with_timezone`)
+  let offCarried : Bool := (match off with | some o => sval o == 0 | none => true) ||
+    (match items with | some its => its.any (fun it => it.letter == 122) | none => false)
+  let full : Bool := offInDomain && offCarried && (match items with | some its => Spec.Efmt.backDomain its | none => false)
   let inDomain := decide (e.ts = TS.UTC) && full
   -- outside the letter of the clause (non-UTC epochs): when the format prints the time scale the text still
   -- determines the epoch, so the result must be the epoch or an error, never another instant
@@ -312,16 +382,17 @@ def handle (op : String) (args : List String) (impl : Impl) : Option Ans :=
     let m := formatFromStr s
     let sp :=
       if op == "p_format" then noPanic impl
-      else match specItems s with
+      else match specItemsX s with
         | some its =>
           (match impl with
-           | .ok [x] => if codesOfHex x == some (Spec.Efmt.debugText its) then "ok" else "FAIL:items"
+           | .ok [x] => if codesOfHex x == some (Spec.Efmt.debugTextX its) then "ok" else "FAIL:items"
            | .ok _ => "FAIL:decode"
            | .other w => "FAIL:" ++ w)
         | none => noPanic impl
     pure { model := (match m with | .ok f => "ok " ++ hexOfCodes f.debug | .err => "err" | .panic => "panic"),
            spec := sp,
-           branch := op ++ ":" ++ resTag m ++ (if (specItems s).isSome then ":domain" else ":open") }
+           branch := op ++ ":" ++ resTag m ++
+             (if (specItems s).isSome then ":domain" else if (specItemsX s).isSome then ":domain:unnamed" else ":open") }
   | "const_debug", [n] => do
     let f ← constByName? n
     -- all nine constants are judged against the string of the documentation: the rustdoc / suite string
@@ -338,8 +409,8 @@ def handle (op : String) (args : List String) (impl : Impl) : Option Ans :=
     let e ← parseEp? e
     let off ← (match rest with | [] => some none | [d] => (parseDur? d).map some | _ => none)
     match formatFromStr s with
-    | .ok f => pure (formatOp op f (specItems s) e off impl)
-    | .err => pure { model := "err", spec := (if (specItems s).isSome then "FAIL:format_rejected" else noPanic impl), branch := "format:bad_format" }
+    | .ok f => pure (formatOp op f (specItems s) e off impl (specItemsX s))
+    | .err => pure { model := "err", spec := (if (specItemsX s).isSome then "FAIL:format_rejected" else noPanic impl), branch := "format:bad_format" }
     | .panic => pure { model := "panic", spec := "FAIL:panic", branch := "format:format_panic" }
   | "format_ts", [h, e, ts] => do
     let s ← codesOfHex h
@@ -347,7 +418,7 @@ def handle (op : String) (args : List String) (impl : Impl) : Option Ans :=
     let ts ← TS.ofString? ts
     let e2 ← Dyn.toTimeScaleF e ts
     match formatFromStr s with
-    | .ok f => pure (formatOp op f (specItems s) e2 none impl)
+    | .ok f => pure (formatOp op f (specItems s) e2 none impl (specItemsX s))
     | _ => none
   | "format_const", n :: e :: rest => do
     let f ← constByName? n
